@@ -1,6 +1,7 @@
 package main
 
 import (
+	"go/constant"
 	"fmt"
 	"go/token"
 	"go/types"
@@ -75,6 +76,7 @@ type LoopInfo struct {
 
 type VC struct {
 	eng   *Engine
+	cells map[string]cellRef // captured variables of the enclosing closure tree (see cells.go)
 	fn    *ssa.Function
 	key   string
 	spec  *FuncSpec
@@ -201,6 +203,7 @@ func (vc *VC) sortOf(t types.Type) string {
 		case u.Info()&types.IsInteger != 0:
 			return "Int"
 		case u.Info()&types.IsFloat != 0:
+			vc.trusted["floating-point values modelled as mathematical reals (no NaN, infinities or rounding)"] = true
 			return "Real"
 		default:
 			return "Int"
@@ -853,7 +856,25 @@ func (vc *VC) constTerm(c *ssa.Const) Term {
 		}
 		return Term{S: v, Sort: s, T: t}
 	case "Real":
-		return Term{S: vc.fresh("realconst"), Sort: s, T: t}
+		// exact rational value of the constant (floats are modelled as mathematical reals)
+		fv := constant.ToFloat(c.Value)
+		if fv.Kind() == constant.Float || fv.Kind() == constant.Int {
+			num, den := constant.Num(fv), constant.Denom(fv)
+			if num.Kind() == constant.Int && den.Kind() == constant.Int {
+				ns, neg := num.ExactString(), false
+				if strings.HasPrefix(ns, "-") {
+					ns, neg = ns[1:], true
+				}
+				r := fmt.Sprintf("(/ %s.0 %s.0)", ns, den.ExactString())
+				if neg {
+					r = "(- " + r + ")"
+				}
+				return Term{S: r, Sort: s, T: t}
+			}
+		}
+		n := vc.fresh("realconst")
+		vc.declConst(n, "Real")
+		return Term{S: n, Sort: s, T: t}
 	}
 	return Term{S: vc.zero(t), Sort: s, T: t}
 }
